@@ -46,12 +46,13 @@ class Raised(Exception):
 
 
 import calendar as _calendar_mod
+import collections as _collections_mod
 import datetime as _datetime_mod
 import re as _re_mod
 
 # side-effect-free standard-library modules the evaluated code may call on concrete values: they are the language's primitives here,
 # exactly like int() or str.split(); nothing of the repository runs through them
-PURE_STDLIB = {"re": _re_mod, "datetime": _datetime_mod, "calendar": _calendar_mod}
+PURE_STDLIB = {"re": _re_mod, "datetime": _datetime_mod, "calendar": _calendar_mod, "collections": _collections_mod}
 
 
 def _pure_stdlib(dotted: str) -> Any:
